@@ -1060,3 +1060,9 @@ mod test {
         }
     }
 }
+
+#[cfg(kani)]
+mod verif_kani {
+    use super::*;
+    include!(concat!(env!("LIBTW2_VERIF_HARNESS"), "/net_protocol7.rs"));
+}
